@@ -50,7 +50,8 @@ META = {
         "(R5) footnote_plugin runs with inline=False, move_to_end=False, always_match_refs=True (defaults read from the "
         "plugin source), and the `[text]{attrs}` span rule of attrs_plugin is inserted behind footnote_ref in markdown-it's "
         "inline chain (chain and insertion anchors read from markdown_it/parser_inline.py and the two plugin sources). "
-        "(R6) The duplicate test consults the footnote registries (both of them), not the document-wide name/id tables, and "
+        "(R6) The duplicate test consults the footnote registries (both of them), not the document-wide name/id tables, "
+        "compares labels verbatim as they are stored (no case/whitespace/character folding on either side), and "
         "everything it reads (registry entry, name) is stored before the footnote body is rendered, where a nested duplicate "
         "can occur. "
         "(R7) Every myst_footnote_* setting a transform reads is written unconditionally during render from the same-named "
@@ -71,7 +72,8 @@ META = {
         "with footnote_sort off, auto numbers follow definition order (documented behaviour of the option); which container "
         "types the final-transition look-out descends into (only that it descends); a manual/auto classification moved "
         "wholesale into a helper is ANALYSIS-ERROR (path counts would span two CFGs); rST footnotes created inside eval-rst "
-        "(parsed into a separate document); inline rules of third-party markdown-it plugins other than footnote/attrs"
+        "(parsed into a separate document); inline rules of third-party markdown-it plugins other than footnote/attrs; "
+        "string transformations in the duplicate test other than the tabled folding methods/functions are ANALYSIS-ERROR"
     ),
     "trusted_base": [
         "CPython ast",
@@ -84,6 +86,7 @@ META = {
         "markdown-it tries inline rules in chain order and the first rule that matches wins; Ruler.after(x) inserts directly behind x",
         "footnote names that survive in node['names'] are unique in the document (docutils moves clashing names to dupnames)",
         "symbol footnotes never reach the outer document's registries (eval-rst parses into a separate document)",
+        "footnote labels are case- and whitespace-sensitive (markdown-it's footnote plugin keys definitions by the verbatim label)",
     ],
 }
 
@@ -794,7 +797,7 @@ def _classifier(fi: FunctionInfo):
         ctx, t, pol = _strip_predicate(fi, n.test)
         if isinstance(t, ast.Call) and isinstance(t.func, ast.Attribute) and not t.args and not t.keywords and _is_label(ctx, t.func.value):
             found.append((n, t.func.attr, pol))
-        elif _decides_membership(ctx, t):
+        elif _decides_membership(ctx, t) or any(_decides_membership(ctx, a) for a, _p in facts(n.test, True)) or any(_decides_membership(ctx, a) for a, _p in facts(n.test, False)):
             continue  # the duplicate test, not a classification
         elif any(isinstance(x, ast.expr) and not isinstance(x, ast.Compare) and _is_label_use_in_call(fi, x) for x in ast.walk(n.test)):
             raise Unsupported(f"{fi.module.site(n)}: label classified by `{short(n.test, 60)}` (not a plain str predicate of the label)")
@@ -1051,14 +1054,47 @@ def r2_predicate_and_registries(corpus: Corpus, rep: Report, tier: str):
 # R3 / R6 - the duplicate-definition path
 
 
+# string transformations that map different labels to the same value (case / whitespace / character folding)
+FOLDING_METHODS = {"lower", "upper", "casefold", "title", "capitalize", "swapcase"}
+FOLDING_FUNCTIONS = {
+    "docutils.nodes.fully_normalize_name": "lower-cases and folds whitespace",
+    "docutils.nodes.make_id": "lower-cases and replaces every non-alphanumeric run by a hyphen",
+    "unicodedata.normalize": "folds canonically/compatibly equivalent characters",
+}
+# not tabled on purpose: strip()/whitespace_normalize_name() are the identity on footnote labels (they contain no
+# white space), replace()/translate()/re.sub() depend on their arguments -> outside the understood subset
+
+
+def _folding(fi: FunctionInfo, e: ast.AST) -> str | None:
+    """description if ``e`` is a call of a known non-injective string transformation"""
+    if isinstance(e, ast.Call):
+        if isinstance(e.func, ast.Attribute) and e.func.attr in FOLDING_METHODS and not (dotted(e.func.value) or "").startswith(("re", "nodes")):
+            return f".{e.func.attr}()"
+        r = fi.module.resolve(dotted(e.func) or "")
+        if r in FOLDING_FUNCTIONS:
+            return f"{r.rsplit('.', 1)[-1]}() ({FOLDING_FUNCTIONS[r]})"
+    return None
+
+
+def _is_label_form(fi: FunctionInfo, e: ast.expr, depth: int = 0) -> bool:
+    """the label itself, or a known folding transformation applied to it (``label.lower()``, ``normalize(label)``)"""
+    e = _deref(fi, e) if isinstance(e, ast.Name) and not _is_label(fi, e) else e
+    if _is_label(fi, e):
+        return True
+    if depth < 3 and _folding(fi, e) is not None:
+        ops = ([e.func.value] if isinstance(e.func, ast.Attribute) else []) + list(e.args)
+        return any(_is_label_form(fi, o, depth + 1) for o in ops)
+    return False
+
+
 def _membership_polarity(atom: ast.expr, pol: bool, fi: FunctionInfo):
     """If ``atom`` (holding with polarity ``pol``) decides 'label is a member of C': (is_member, compare node)."""
     cmp_ = None
-    if isinstance(atom, ast.Compare) and len(atom.ops) == 1 and isinstance(atom.ops[0], (ast.In, ast.NotIn)) and _is_label(fi, atom.left):
+    if isinstance(atom, ast.Compare) and len(atom.ops) == 1 and isinstance(atom.ops[0], (ast.In, ast.NotIn)) and _is_label_form(fi, atom.left):
         cmp_ = atom
     elif isinstance(atom, ast.Call) and dotted(atom.func) == "any" and len(atom.args) == 1 and isinstance(atom.args[0], (ast.GeneratorExp, ast.ListComp)):
         e = atom.args[0].elt
-        if isinstance(e, ast.Compare) and len(e.ops) == 1 and isinstance(e.ops[0], (ast.In, ast.NotIn, ast.Eq)) and (_is_label(fi, e.left) or _is_label(fi, e.comparators[0])):
+        if isinstance(e, ast.Compare) and len(e.ops) == 1 and isinstance(e.ops[0], (ast.In, ast.NotIn, ast.Eq)) and (_is_label_form(fi, e.left) or _is_label_form(fi, e.comparators[0])):
             cmp_ = e
             if isinstance(e.ops[0], ast.NotIn):
                 raise Unsupported("any(label not in ...) as duplicate test")
@@ -1180,6 +1216,31 @@ def r6_duplicate_test_registry_kind(corpus: Corpus, rep: Report, tier: str):
         rep.ok("C11.R6", key, site, f"derived from document.{', '.join(regs)}")
     else:
         raise Unsupported(f"{site}: container of the duplicate test not understood: {short(atom, 70)}")
+    # (d) labels are compared as they are stored: verbatim (names[0] = refname = the label, see R2)
+    folds = []
+    work_, seen_ = [atom], set()
+    while work_:
+        e_ = work_.pop()
+        for x in ast.walk(e_):
+            d_ = _folding(tctx, x)
+            if d_ is not None:
+                folds.append((x, d_))
+            if isinstance(x, ast.Name) and x.id not in seen_ and x.id not in tctx.params:
+                seen_.add(x.id)
+                v_ = _single_assign(tctx, x.id)
+                if v_ is not None:
+                    work_.append(v_)
+    key = f"{fi.fq}|duplicate test|labels compared verbatim"
+    if folds:
+        x, d_ = folds[0]
+        rep.violation(
+            "C11.R6",
+            key,
+            tctx.module.site(x),
+            f"the duplicate test compares labels through {d_} (`{short(x, 50)}`), but footnotes are stored and referenced under their verbatim label: two different labels that fold to the same value (`[^note]` / `[^Note]`) count as duplicates, the second definition is dropped, its text is lost and its references never resolve",
+        )
+    else:
+        rep.ok("C11.R6", key, site)
     # (b) both kinds of definitions are covered
     if regs:
         for reg, kind in (("footnotes", "manually numbered"), ("autofootnotes", "auto-numbered")):
@@ -1191,7 +1252,7 @@ def r6_duplicate_test_registry_kind(corpus: Corpus, rep: Report, tier: str):
     # (c) what the test looks at is in place before the footnote body is rendered (a duplicate can be nested in the body)
     _, _, d_man, d_auto = _classifier(fi)
     ev, var = _scan_def(fi)
-    reads_names = any(isinstance(x, ast.Subscript) and isinstance(x.slice, ast.Constant) and x.slice.value in ("names", "dupnames") for x in ast.walk(atom))
+    reads_names = any(isinstance(x, ast.Subscript) and isinstance(x.slice, ast.Constant) and x.slice.value in ("names", "dupnames") for r_ in [atom] + [v for v in (_single_assign(tctx, n_.id) for n_ in ast.walk(atom) if isinstance(n_, ast.Name)) if v is not None] for x in ast.walk(r_))
     feeders = {"manual": [], "auto": []}
     if "footnotes" in attrs:
         feeders["manual"].append(("note_fn", "note_footnote(footnote)"))
@@ -2458,6 +2519,15 @@ def mutants(corpus: Corpus):
         # revert of fix 65fc250: the document-wide name table decides what a duplicate is
         add("c11-revert-65fc250-duplicate-test-nameids", "C11.R6", base, dup.test, f"{lab} in self.document.nameids", "against document.nameids", True)
         add("c11-duplicate-test-ids-table", "C11.R6", base, dup.test, f"{lab} in self.document.ids", "against document.ids")
+        # labels compared in a folded form although they are stored verbatim (class of seed4 out-c11/3)
+        mcmp = next((x for x in ast.walk(dup.test) if isinstance(x, ast.Compare) and isinstance(x.ops[0], ast.In) and isinstance(x.left, ast.Name)), None)
+        if mcmp is not None:
+            l_, c_ = _seg(base, mcmp.left), _seg(base, mcmp.comparators[0])
+            add("c11-duplicate-test-case-insensitive", "C11.R6", base, mcmp, f"{l_}.lower() in [_n.lower() for _n in {c_}]", "labels compared verbatim")
+            add("c11-duplicate-test-docutils-normalised", "C11.R6", base, mcmp, f"nodes.fully_normalize_name({l_}) in [nodes.fully_normalize_name(_n) for _n in {c_}]", "labels compared verbatim")
+            add("c11-duplicate-test-stored-names-folded", "C11.R6", base, mcmp, f"{l_} in [_n.casefold() for _n in {c_}]", "labels compared verbatim")
+        else:
+            out.append(("c11-duplicate-test-case-insensitive", "membership comparison of the duplicate test not found"))
         reg = next((x for x in ast.walk(dup.test) if isinstance(x, ast.BinOp) and isinstance(x.op, ast.Add) and _doc_attr(x.left, "footnotes") and _doc_attr(x.right, "autofootnotes")), None)
         if reg is not None:
             add("c11-duplicate-test-manual-only", "C11.R6", base, reg, _seg(base, reg.left), "covers document.autofootnotes")
